@@ -180,7 +180,90 @@ var c19Deriving = map[string]bool{"Clone": true, "Concat": true, "SubList": true
 	"Keys": true, "Values": true, "Merge": true, "Pluck": true, "GetList": true, "GetObject": true}
 
 // c19Retrieval stores the derived value and retrieves it through every route.
+// c19StoreRoutes: the derived value (and each of its inner embedding levels, and its embedded container) is stored
+// through every storing entry point; what comes back must be the registered outer value at every position, and the
+// stored value's own registration must survive the store (Ego and a fluent call still answer with the outer value).
+func c19StoreRoutes(outer interface{}, level int, isList bool) (msg, sig string) {
+	// the values that denote the same container: the outer value, its inner levels, the embedded plain container
+	forms := map[string]interface{}{"the outer value": outer}
+	switch d := outer.(type) {
+	case *DL:
+		forms["the embedded container"] = d.List
+	case *DDL:
+		forms["the inner embedding level"] = d.DL
+		forms["the embedded container"] = d.DL.List
+	case *DO:
+		forms["the embedded container"] = d.Object
+	case *DDO:
+		forms["the inner embedding level"] = d.DO
+		forms["the embedded container"] = d.DO.Object
+	}
+	names := make([]string, 0, len(forms))
+	for n := range forms {
+		names = append(names, n)
+	}
+	sort.Strings(names)
+	for _, fname := range names {
+		v := forms[fname]
+		stores := map[string]func() interface{}{
+			"NewList":                func() interface{} { return at.NewList(1, v).Get(1) },
+			"NewListOf[0]":           func() interface{} { return at.NewListOf(v, 3).Get(0) },
+			"NewListOf[1]":           func() interface{} { return at.NewListOf(v, 3).Get(1) },
+			"NewListOf[2]":           func() interface{} { return at.NewListOf(v, 3).Get(2) },
+			"NewListFrom([]any)":     func() interface{} { return at.NewListFrom([]interface{}{v, 1}).Get(0) },
+			"Add":                    func() interface{} { return at.NewList().Add(1, v).Get(1) },
+			"Insert":                 func() interface{} { return at.NewList(1, 2).Insert(1, v).Get(1) },
+			"Replace":                func() interface{} { return at.NewList(1, 2).Replace(1, v).Get(1) },
+			"List.SetTF leaf":        func() interface{} { return at.NewList(1).SetTF("#3", v).Get(3) },
+			"List.SetTF nested":      func() interface{} { return at.NewList().SetTF("#0.k#1", v).GetTF("#0.k#1") },
+			"NewObject":              func() interface{} { return at.NewObject("a", 1, "k", v).Get("k") },
+			"NewObjectFrom(map any)": func() interface{} { return at.NewObjectFrom(map[string]interface{}{"k": v}).Get("k") },
+			"Set":                    func() interface{} { return at.NewObject("k", 1).Set("k", v).Get("k") },
+			"Object.SetTF":           func() interface{} { return at.NewObject().SetTF(".a.k", v).GetTF(".a.k") },
+			"Map result":             func() interface{} { return at.NewList(0).Map(func(int, interface{}) interface{} { return v }).Get(0) },
+			"MapAsync result": func() interface{} {
+				return at.NewList(0, 1).MapAsync(func(int, interface{}) interface{} { return v }).Get(1)
+			},
+		}
+		if isList {
+			stores["NewListFrom([]List)"] = func() interface{} { return at.NewListFrom([]at.List{v.(at.List), v.(at.List)}).Get(1) }
+			stores["NewObjectFrom(map List)"] = func() interface{} { return at.NewObjectFrom(map[string]at.List{"k": v.(at.List)}).Get("k") }
+		} else {
+			stores["NewListFrom([]Object)"] = func() interface{} { return at.NewListFrom([]at.Object{v.(at.Object), v.(at.Object)}).Get(1) }
+			stores["NewObjectFrom(map Object)"] = func() interface{} { return at.NewObjectFrom(map[string]at.Object{"k": v.(at.Object)}).Get("k") }
+		}
+		snames := make([]string, 0, len(stores))
+		for n := range stores {
+			snames = append(snames, n)
+		}
+		sort.Strings(snames)
+		for _, sn := range snames {
+			var got interface{}
+			if pn, pv := try(func() { got = stores[sn]() }); pn {
+				return fmt.Sprintf("storing %s of a derived value through %s panicked: %v", fname, sn, pv), "identity/store-panic/" + sn
+			}
+			if got != outer {
+				return fmt.Sprintf("%s of a derived value (embedding level %d) stored through %s comes back as %T(%p), not as the registered outer value %T(%p)", fname, level, sn, got, got, outer, outer), "identity/store/" + sn
+			}
+			// the store must not have disturbed the registration of the stored value
+			var ego, fluent interface{}
+			if isList {
+				ego, fluent = outer.(at.List).Ego(), outer.(at.List).ForEach(func(int, interface{}) {})
+			} else {
+				ego, fluent = outer.(at.Object).Ego(), outer.(at.Object).ForEach(func(string, interface{}) {})
+			}
+			if ego != outer || fluent != outer {
+				return fmt.Sprintf("after storing %s through %s the value's own Ego()/fluent calls answer with %T/%T instead of the registered outer value %T", fname, sn, ego, fluent, outer), "identity/registration-lost/" + sn
+			}
+		}
+	}
+	return "", ""
+}
+
 func c19Retrieval(outer interface{}, level int, isList bool) (msg, sig string) {
+	if m, sg := c19StoreRoutes(outer, level, isList); m != "" {
+		return m, sg
+	}
 	same := func(route string, got interface{}) (string, string) {
 		if got != outer {
 			return fmt.Sprintf("a derived %s (embedding level %d) stored in a container comes back through %s as %T(%p), not as the registered outer value %T(%p)", map[bool]string{true: "list", false: "object"}[isList], level, route, got, got, outer, outer), "identity/retrieve/" + route
@@ -317,7 +400,7 @@ func runC19(c *ev.Ctx) {
 	sort.Strings(fluentSeen)
 	c.Set("fluent_methods_found_by_reflection", fluentSeen)
 	c.Set("methods_returning_the_container_type_not_classified", unclassified)
-	c.Rule(fmt.Sprintf("user types DL{List}, DDL{*DL}, DO{Object}, DDO{*DO} registered with Init; explicit-state BFS over chains of <= %d fluent calls out of %d list variants / %d object variants (every code path of each fluent method: Insert front/middle/end, Delete with 0/1/2 indices, SetTF leaf/dot/hash x pad/reuse/replace, UnsetTF x3, all ForEach variants incl. ForEachAsync) from 6 start contents per type and embedding level; every call must return the registered outer value (interface identity, so returning the embedded container is detected) and Ego() must be it. States merged by (type, level, content). Retrieval: the derived value stored in a plain List/Object and in another derived value must come back identical through 28 routes (Get, typed getters, GetTF, ForEach*, typed slices, Slice, Dict, Values, Filter*, Map*, SubList, Concat, Merge, Pluck, Reduce).", depth, len(lops), len(oops)))
+	c.Rule(fmt.Sprintf("user types DL{List}, DDL{*DL}, DO{Object}, DDO{*DO} registered with Init; explicit-state BFS over chains of <= %d fluent calls out of %d list variants / %d object variants (every code path of each fluent method: Insert front/middle/end, Delete with 0/1/2 indices, SetTF leaf/dot/hash x pad/reuse/replace, UnsetTF x3, all ForEach variants incl. ForEachAsync) from 6 start contents per type and embedding level; every call must return the registered outer value (interface identity, so returning the embedded container is detected) and Ego() must be it. States merged by (type, level, content). Retrieval: the derived value stored in a plain List/Object and in another derived value is stored - as the outer value, as each inner embedding level and as its embedded container - through 18 storing entry points (constructors, NewListOf at every position, Add/Insert/Replace/Set, tree-form writes, Map/MapAsync results): it must come back as the registered outer value and its own Ego()/fluent answers must survive the store; then it must come back identical through 28 routes (Get, typed getters, GetTF, ForEach*, typed slices, Slice, Dict, Values, Filter*, Map*, SubList, Concat, Merge, Pluck, Reduce).", depth, len(lops), len(oops)))
 	c.Assume("fluent methods are those the statement lists; the interface is scanned by reflection and any other method returning the container type is reported as unclassified")
 
 	type op struct{ I int }
